@@ -117,4 +117,7 @@ class Link(base.BaseObject):
             self._vertices.remove(kill)
 
             if kill is not None:
+                # a vertex may be listed more than once (e.g. a self-loop)
+                while kill in self._vertices:
+                    self._vertices.remove(kill)
                 kill.remove_from_link(self)
